@@ -119,7 +119,9 @@ def build_rt(features=(), extra_env=None, tag=None, package="rt", toolchain=None
             if m.get("reason") == "compiler-artifact" and m.get("executable") and m.get("target", {}).get("name") == package:
                 exe = m["executable"]
         if p.returncode != 0 or not exe:
-            tail = "\n".join(p.stderr.splitlines()[-60:])
+            lines = p.stderr.splitlines()
+            errs = [i for i, l in enumerate(lines) if l.startswith("error")]
+            tail = "\n".join(lines[errs[0]:errs[0] + 40]) if errs else "\n".join(lines[-40:])
             raise Inconclusive("harness does not build against /repo (cargo exit %s):\n%s" % (p.returncode, tail))
         os.makedirs(os.path.join(WORK, "bin"), exist_ok=True)
         dst = os.path.join(WORK, "bin", "%s-%d" % (tag, os.getpid()))
@@ -490,6 +492,52 @@ def p_hist(o):
         o.extra["cross_process_digest"] = outs[0]["sets"].get("digest")
 
 
+def p_values(o):
+    exe = build_rtc(o)
+    o.replay_base = {"sub": "values", "bin": "rtc"}
+    rt_pass(o, exe, "values", ["--rounds", sizes(o.tier, 6, 60), "--values", sizes(o.tier, 150, 600), "--max-secs", sizes(o.tier, 60, 420)], timeout=sizes(o.tier, 400, 1800))
+    if o.prop == "C04":
+        o.rule = ("every built-in type expression of the corpus (core: each impl family of C04 incl. all NonZero*, all 8 BitVec store/order pairs, Compact<u8..u128,()>, Cow of sized/unsized targets, "
+                  "tuples 1..20, arrays 0..1000; seeded nesting to depth 4) x boundary-heavy sampled values; each value is SCALE-encoded by parity-scale-codec and decoded by a schema-directed decoder "
+                  "that only knows the registry; result must consume all bytes and equal the documented model. Types without an encoding (char, 19/20-tuples, ...) are checked for shape only. "
+                  "Non-trivial: non-empty encoding; distinct = distinct (type, bytes).")
+        o.need(["types_exercised", "shape_only_types", "tuple_shapes_checked", "bytes_decoded"])
+    else:
+        o.rule = ("every generated definition deriving TypeInfo and Encode (unit/tuple/named structs and enums; generics, recursion, PhantomData, lifetimes, const parameters; "
+                  "codec attributes skip, compact, index, encoded_as, explicit discriminants, rename) x sampled values of each instantiation; decoded from the registry alone and compared with the declaration model "
+                  "(variant identifier, field identifiers, order, leaves); enum metadata index must be the first byte. Non-trivial: non-empty encoding; distinct = distinct (type, bytes).")
+        o.need(["types_exercised", "variant_index_is_first_byte", "tag_compact", "tag_skip", "tag_variant_skip", "tag_index", "tag_encoded_as", "tag_phantom", "tag_recursive", "tag_generic", "tag_rename", "tag_enum"])
+    o.assumptions = ["schema-directed decoder (harness/vcommon/src/valdec.rs) implements the SCALE rules from the property text", "Model impls are written from the documented shapes (std) or emitted by the generator from the declaration (derived)",
+                     "parity-scale-codec's derived Encode is the ground truth for bytes"]
+
+
+def p_pairs(o):
+    exe = build_rtc(o)
+    o.replay_base = {"sub": "pairs", "bin": "rtc"}
+    rt_pass(o, exe, "pairs", [], timeout=sizes(o.tier, 400, 1800))
+    o.rule = ("all ordered pairs of corpus entries (built-in constructors at nesting <=4, wrappers of wrappers, aliases, hand-written and derived types): ==, !=, cmp both ways, partial_cmp, hash; "
+              "declared identity taken from the trait (TypeId::of::<<T as TypeInfo>::Identity>()), not from MetaType; coherence of definitions and of registration order within each identity class; "
+              "transitivity over all triples of a 150-entry subset. Non-trivial: a != b as corpus entries; distinct = distinct ordered pairs.")
+    o.need(["same_identity_pairs", "different_identity_pairs", "alias_order_pairs_checked", "transitivity_triples", "identity_classes_with_aliases"])
+    o.assumptions = ["std TypeId equality is type identity", "DefaultHasher is used as the witness for Hash consistency"]
+
+
+def p_mirror(o):
+    o.replay_base = {"sub": "mirror", "bin": "rtc"}
+    for feats in ((), ("docs",)):
+        exe = build_rtc(o, feats)
+        rep = rt_pass(o, exe, "mirror", [], timeout=600, prefix="docs_on_" if feats else "docs_off_", name="C09-mirror-%s" % ("on" if feats else "off"))
+        if rep is not None and rep.get("docs_feature") != bool(feats):
+            o.inconclusive.append("build with features %s reports docs_feature=%s" % (feats, rep.get("docs_feature")))
+    o.rule = ("every instantiation of every generated definition (nested modules incl. raw names; generics with bounds/defaults/const/lifetime parameters; replace_segment, skip_type_params, rename, "
+              "compact, skip, PhantomData members; docs in /// and #[doc] form with 0/1/2 leading spaces and hostile content; all capture_docs values) under two builds (docs feature off and on); "
+              "type_info() is compared with the declaration model emitted by the generator from the source it wrote. distinct = distinct (instantiation, build).")
+    for pre in ("docs_on_", "docs_off_"):
+        o.need(["members_compared", "variants_compared", "capture_default", "capture_always", "capture_never"], pre)
+    o.need(["doc_lines_compared"], "docs_on_")
+    o.assumptions = ["declaration model = the generator's own AST, by the rules in the statement of C09", "chained replace_segment rules, block doc comments and macro-generated types are outside the grammar"]
+
+
 def p_schema(o):
     exe = build_rt(("schema",))
     o.replay_base = {"sub": "schema", "features": ["schema"]}
@@ -603,14 +651,18 @@ def p_ident(o):
 PROPS = {
     "C01": dict(fn=p_hist, level="exploration"),
     "C02": dict(fn=p_hist, level="exploration"),
+    "C03": dict(fn=p_values, level="exploration"),
+    "C04": dict(fn=p_values, level="exploration"),
     "C05": dict(fn=p_hist, level="exploration"),
     "C11": dict(fn=p_hist, level="exploration"),
     "C06": dict(fn=p_codec, level="exploration"),
     "C07": dict(fn=p_codec, level="exploration"),
     "C08": dict(fn=p_codec, level="exploration"),
+    "C09": dict(fn=p_mirror, level="exploration"),
     "C10": dict(fn=p_retain, level="exploration"),
     "C14": dict(fn=p_decode, level="fault_enumeration"),
     "C12": dict(fn=p_table, level="exploration"),
+    "C16": dict(fn=p_pairs, level="exploration"),
     "C18": dict(fn=p_ident, level="exploration"),
     "C19": dict(fn=p_schema, level="exploration"),
 }
